@@ -4,6 +4,8 @@ This module owns the *fingerprint* part (model M2: fp_fold / fp_fold_cm / unfold
 Other routes of the property are separate parts, each a callable `part(ctx) -> found_input(bool)`:
     props/c07_db.py        (FingerprintDatabase.fold: row-wise fold, source rows unchanged)       -- hook point
     props/c07_fprinter.py  (get_fingerprint_at_level(bits=b) = fold of the 2^32 fingerprint)       -- hook point
+    props/c07_extra.py     (sources that are copies / conversions / operator results / database rows, attached props and
+                            index_id_map, user-supplied reducers, long chains)                      -- coverage extension
 They are imported below when present and appended to PARTS; `run` calls every part.
 """
 import importlib
@@ -19,6 +21,37 @@ TOL = '(Qmake 1 1000000000)'
 TOLF = Fraction(1, 10 ** 9)
 CM = {'sum': ('CMSum', sum), 'max': ('CMMax', max), 'min': ('CMMin', min)}
 KEY_STALE = 'fold-cache:counts_method-rewrites-earlier-result'
+FOLD_BITS_DEF = 1024          # documented default of fold(bits=...); compared with the library constant in part_fingerprint
+
+
+def fold_call(form, nb, method):
+    """The documented ways of writing one and the same fold call.  Returns a function of the source object, or None when
+    the form cannot express (nb, method) (defaults only stand for their documented values)."""
+    import numpy as np
+    if form == 'pos':
+        return lambda a: a.fold(nb, method)
+    if form == 'kw':
+        return lambda a: a.fold(bits=nb, method=method)
+    if form == 'kw_rev':
+        return lambda a: a.fold(method=method, linked=True, bits=nb)
+    if form == 'pos_linked':
+        return lambda a: a.fold(nb, method, True)
+    if form == 'default_method':
+        return (lambda a: a.fold(nb)) if method == 0 else None
+    if form == 'default_bits':
+        return (lambda a: a.fold()) if (nb, method) == (FOLD_BITS_DEF, 0) else None
+    if form == 'default_bits_kw_method':
+        return (lambda a: a.fold(method=method)) if nb == FOLD_BITS_DEF else None
+    if form == 'np64':
+        return lambda a: a.fold(np.int64(nb), np.int64(method))
+    if form == 'np32':
+        return (lambda a: a.fold(np.int32(nb), method)) if -2 ** 31 <= nb < 2 ** 31 else None
+    if form == 'npintp':
+        return lambda a: a.fold(bits=np.intp(nb), method=np.int8(method) if -128 <= method < 128 else method)
+    raise ValueError(form)
+
+
+FORMS = ('kw', 'kw_rev', 'pos_linked', 'default_method', 'default_bits', 'default_bits_kw_method', 'np64', 'np32', 'npintp')
 
 
 # --------------------------------------------------------------------------- observation helpers
@@ -38,14 +71,29 @@ def fmap_lit(f):
     return core.listlit(['(%s, %s)' % (core.zlit(i), core.zlit(j)) for i, j in f])
 
 
-def obs_close(o1, o2):
+def exact_sums(oa):
+    """True when every sum of the source's values is exact in double precision whatever the order of summation: the values are
+    multiples of 2^-k and the sum of their magnitudes stays below 2^(53-k).  Then no tolerance is granted (a result that is
+    rounded, truncated or accumulated in lower precision differs), otherwise the relative 1e-9 of the assumptions applies."""
+    vals = [v for _, v in oa['cnt']]
+    if not vals:
+        return True
+    k = max(v.denominator for v in vals)            # Fractions of floats: denominators are powers of two
+    return k & (k - 1) == 0 and sum(abs(v) for v in vals) * k < 2 ** 53
+
+
+def tol_of(oa):
+    return ('(Qmake 0 1)', Fraction(0)) if exact_sums(oa) else (TOL, TOLF)
+
+
+def obs_close(o1, o2, tolf=TOLF):
     """Equality of two implementation observations, float counts within tolerance."""
     if any(o1[k] != o2[k] for k in ('kind', 'bits', 'level', 'idx', 'name')):
         return False
     if [k for k, _ in o1['cnt']] != [k for k, _ in o2['cnt']]:
         return False
     for (_, x), (_, y) in zip(o1['cnt'], o2['cnt']):
-        if abs(x - y) > TOLF * max(1, abs(y)):
+        if abs(x - y) > tolf * max(1, abs(y)):
             return False
     return True
 
@@ -71,7 +119,7 @@ def small_spec(rng, kind, bits, subset, level, name):
     elif kind == 'KCount':
         spec['cnt'] = {i: rng.choice([1, 1, 2, 3, 7, 200]) for i in subset}
     else:
-        spec['cnt'] = {i: Fraction(rng.choice([1, 2, 3, 5, 9, 250]), rng.choice([1, 1, 2, 4, 8])) for i in subset}
+        spec['cnt'] = {i: Fraction(rng.choice([1, 2, 3, 5, 9, 250]), rng.choice([1, 1, 2, 4, 8, 2 ** 30])) for i in subset}
     return spec
 
 
@@ -86,7 +134,7 @@ class Runner(object):
         self.found = False
         self.dist = {'fold_cases': 0, 'exhaustive_sources': 0, 'sampled_sources': 0, 'negative_or_large_sources': 0, 'two_step_checks': 0,
                      'rejections': 0, 'option_cases': 0, 'stale_result_checks': 0, 'by_kind': {}, 'by_method': {0: 0, 1: 0},
-                     'collisions': 0, 'bits_seen': set()}
+                     'collisions': 0, 'bits_seen': set(), 'by_form': {}}
 
     def add_case(self, key, expr, payload, model_out):
         self.cases.append((key, expr))
@@ -97,16 +145,39 @@ class Runner(object):
         self.found = True
         self.ctx.fail(what, payload, finding_key=key)
 
-    def fold_case(self, tag, spec, nb, method):
+    def fold_case(self, tag, spec, nb, method, form='pos'):
         """One fold on a fresh source: result, both index maps, source unchanged, repeat call equal."""
+        rp = {'type': 'fold', 'tag': tag, 'spec': fpgen.spec_to_json(spec), 'nb': nb, 'method': method, 'form': form}
+        return self.fold_obj(tag, build(spec), nb, method, rp, form=form)
+
+    def fold_obj(self, tag, a, nb, method, rp, form='pos', fresh=True, linked_to_source=True):
+        """The checks of one fold call on the source object `a` (any fingerprint object; the model gets its observation).
+        fresh: `a` has never been folded (then its folding map must be the one of this call and a rejected call must leave no
+        trace); linked_to_source: the result must unfold to `a` itself."""
         ctx, dist = self.ctx, self.dist
-        rp = {'type': 'fold', 'tag': tag, 'spec': fpgen.spec_to_json(spec), 'nb': nb, 'method': method}
-        a = build(spec)
+        call = fold_call(form, nb, method)
+        if call is None:
+            raise ValueError('call form %r cannot express fold(%r, %r)' % (form, nb, method))
         oa = obs(a)
-        r = attempt(lambda: a.fold(nb, method))
-        pl = {'source': fpgen.obs_json(oa), 'fold_bits': nb, 'method': method, 'replay': rp}
+        cache0 = dict(a.folded_fingerprint)
+        fmap0 = fmap_obs(a.get_folding_index_map())
+        r = attempt(lambda: call(a))
+        pl = {'source': fpgen.obs_json(oa), 'fold_bits': nb, 'method': method, 'call_form': form, 'replay': rp}
+        dist['by_form'][form] = dist['by_form'].get(form, 0) + 1
         la = lit(oa)
         key = '%s/fold/%d' % (tag, len(self.cases))
+        if form.startswith('np') and nb == 0:
+            # numpy scalars divide by zero without raising (inf, then "not a power of two"); a Python 0 raises ZeroDivisionError
+            # (the model's EOther).  Both reject; which class is a property of numpy scalar arithmetic, not of fold.
+            dist['rejections'] += 1
+            ctx.count(('rej-np0', str(oa), method), True)
+            if r[0] != 'err' or r[1] not in ('EBits', 'EOther') or obs(a) != oa or dict(a.folded_fingerprint) != cache0:
+                self.fail('fold to length 0 (numpy integer) was not rejected cleanly', dict(pl, impl=str(r[1])))
+            return None
+        if r[0] == 'err' and rp.get('expected_key') and r[1].startswith('EUnexpected_'):
+            # an exception class that is no outcome of fold at all, on an input class that has its own finding key
+            self.fail('fold raised %s' % r[1][12:], dict(pl, impl=r[1]), key=rp['expected_key'])
+            return None
         if r[0] == 'err':
             self.add_case(key, 'result_eqb fp_obs_eqb (fp_fold %s %s %s) (Raises %s)' % (la, core.zlit(nb), core.zlit(method), r[1]),
                           dict(pl, impl=r[1]), 'fp_fold %s %s %s' % (la, core.zlit(nb), core.zlit(method)))
@@ -114,18 +185,25 @@ class Runner(object):
             ctx.count(('rej', str(oa), nb, method), True)
             if obs(a) != oa:
                 self.fail('source changed by a rejected fold', dict(pl, after=fpgen.obs_json(obs(a))))
+            if dict(a.folded_fingerprint) != cache0 or any(a.folded_fingerprint[k] is not v for k, v in cache0.items()) \
+                    or fmap_obs(a.get_folding_index_map()) != fmap0:
+                self.fail('a rejected fold left a trace on the source (folded-fingerprint cache or folding index map changed)',
+                          dict(pl, cache_keys_before=sorted(map(str, cache0)), cache_keys_after=sorted(map(str, a.folded_fingerprint)),
+                               folding_map_before=fmap0, folding_map_after=fmap_obs(a.get_folding_index_map())))
             return None
         fobj = r[1]
         of = obs(fobj)
         um, fm = umap_obs(fobj.get_unfolding_index_map()), fmap_obs(a.get_folding_index_map())
         pl.update(impl=fpgen.obs_json(of), unfolding_map=um, folding_map=fm)
-        if um is None or fm is None:
-            self.fail('fold did not record its index maps', pl)
+        if um is None or (fresh and fm is None):
+            self.fail('fold did not record its index maps', pl, key=rp.get('expected_key'))
+            if rp.get('expected_key'):
+                return None
             um, fm = um or [], fm or []
-        expr = ('let a := %s in result_eqb (fp_obs_close %s) (fp_fold a %s %s) (Ok %s) && umap_eqb (unfold_map a %s %s) %s '
-                '&& fmap_eqb (folding_map a %s %s) %s'
-                % (la, TOL, core.zlit(nb), core.zlit(method), lit(of), core.zlit(nb), core.zlit(method), umap_lit(um),
-                   core.zlit(nb), core.zlit(method), fmap_lit(fm)))
+        expr = ('let a := %s in result_eqb (fp_obs_close %s) (fp_fold a %s %s) (Ok %s) && umap_eqb (unfold_map a %s %s) %s'
+                % (la, tol_of(oa)[0], core.zlit(nb), core.zlit(method), lit(of), core.zlit(nb), core.zlit(method), umap_lit(um)))
+        if fresh:           # the source's own map is the one of the last fold that was not served from its cache
+            expr += ' && fmap_eqb (folding_map a %s %s) %s' % (core.zlit(nb), core.zlit(method), fmap_lit(fm))
         self.add_case(key, expr, pl, 'let a := %s in (fp_fold a %s %s, unfold_map a %s %s, folding_map a %s %s)'
                       % (la, core.zlit(nb), core.zlit(method), core.zlit(nb), core.zlit(method), core.zlit(nb), core.zlit(method)))
         collide = len(of['idx']) < len(oa['idx'])
@@ -140,9 +218,11 @@ class Runner(object):
             self.fail('fold returned the source object itself', pl)
         if obs(a) != oa:
             self.fail('source fingerprint changed by fold', dict(pl, after=fpgen.obs_json(obs(a))))
-        if fobj.unfold() is not a:
-            self.fail('linked fold result does not unfold to its source', pl)
-        again = attempt(lambda: a.fold(nb, method))
+        if linked_to_source and fobj.unfold() is not a:
+            self.fail('linked fold result does not unfold to its source', pl, key=rp.get('expected_key'))
+        if linked_to_source and a.folded_fingerprint.get((nb, method)) is not fobj:
+            self.fail('linked fold result is not the one the source keeps for (bits, method)', pl)
+        again = attempt(lambda: call(a))
         if again[0] != 'ok' or obs(again[1]) != of or umap_obs(again[1].get_unfolding_index_map()) != um:
             self.fail('second identical fold call returned a different result', dict(pl, second=str(again)))
         if obs(fobj) != of or obs(a) != oa:
@@ -158,7 +238,7 @@ class Runner(object):
         r2 = attempt(lambda: obs(a2.fold(nb, method)))
         self.dist['two_step_checks'] += 1
         self.ctx.count(('2step', str(o0), nb, mid, method), nb < mid < o0['bits'])
-        if r1[0] != 'ok' or r2[0] != 'ok' or not obs_close(r1[1], r2[1]):
+        if r1[0] != 'ok' or r2[0] != 'ok' or not obs_close(r1[1], r2[1], tol_of(o0)[1]):
             self.fail('two-step fold differs from one-step fold', {'source': fpgen.obs_json(o0), 'mid': mid, 'fold_bits': nb, 'method': method,
                       'two_step': fpgen.obs_json(r1[1]) if r1[0] == 'ok' else r1[1],
                       'one_step': fpgen.obs_json(r2[1]) if r2[0] == 'ok' else r2[1], 'replay': rp})
@@ -182,7 +262,7 @@ class Runner(object):
                 self.fail('linked=False still linked the folded fingerprint', pl)
             um = umap_obs(u.get_unfolding_index_map()) or []
             self.add_case(key, 'let a := %s in result_eqb (fp_obs_close %s) (fp_fold a %s %s) (Ok %s) && umap_eqb (unfold_map a %s %s) %s'
-                          % (la, TOL, core.zlit(nb), core.zlit(method), lit(obs(u)), core.zlit(nb), core.zlit(method), umap_lit(um)),
+                          % (la, tol_of(oa)[0], core.zlit(nb), core.zlit(method), lit(obs(u)), core.zlit(nb), core.zlit(method), umap_lit(um)),
                           pl, 'fp_fold %s %s %s' % (la, core.zlit(nb), core.zlit(method)))
         else:
             pl['impl'] = r[1]
@@ -201,7 +281,7 @@ class Runner(object):
             m = 'fp_fold_cm %s %s %s %s' % (cmc, la, core.zlit(nb), core.zlit(method))
             if r[0] == 'ok':
                 pl['impl'] = fpgen.obs_json(obs(r[1]))
-                self.add_case(key, 'result_eqb (fp_obs_close %s) (%s) (Ok %s)' % (TOL, m, lit(obs(r[1]))), pl, m)
+                self.add_case(key, 'result_eqb (fp_obs_close %s) (%s) (Ok %s)' % (tol_of(oa)[0], m, lit(obs(r[1]))), pl, m)
             else:
                 pl['impl'] = r[1]
                 self.add_case(key, 'result_eqb fp_obs_eqb (%s) (Raises %s)' % (m, r[1]), pl, m)
@@ -209,6 +289,28 @@ class Runner(object):
                 self.fail('source changed by fold(counts_method=%s)' % cmname, pl)
             dist['option_cases'] += 1
             ctx.count(('cm', cmname, str(oa), nb, method), True)
+        # the two options together, written with keywords: unlinked AND reduced with max / min
+        for cmname in ('max', 'min'):
+            cmc, cmf = CM[cmname]
+            b = build(spec)
+            r = attempt(lambda: b.fold(bits=nb, method=method, counts_method=cmf, linked=False))
+            pl = {'source': fpgen.obs_json(oa), 'fold_bits': nb, 'method': method, 'option': 'linked=False, counts_method=' + cmname, 'replay': rp}
+            key = '%s/unlinked-cm-%s/%d' % (tag, cmname, len(self.cases))
+            m = 'fp_fold_cm %s %s %s %s' % (cmc, la, core.zlit(nb), core.zlit(method))
+            if r[0] == 'ok':
+                pl['impl'] = fpgen.obs_json(obs(r[1]))
+                um = umap_obs(r[1].get_unfolding_index_map())
+                self.add_case(key, 'result_eqb (fp_obs_close %s) (%s) (Ok %s) && umap_eqb (unfold_map %s %s %s) %s'
+                              % (tol_of(oa)[0], m, lit(obs(r[1])), la, core.zlit(nb), core.zlit(method), umap_lit(um or [])), pl, m)
+                if um is None or r[1].unfold() is not None or b.folded_fingerprint:
+                    self.fail('fold(linked=False, counts_method=%s) linked its result or recorded no index map' % cmname, pl)
+            else:
+                pl['impl'] = r[1]
+                self.add_case(key, 'result_eqb fp_obs_eqb (%s) (Raises %s)' % (m, r[1]), pl, m)
+            if obs(b) != oa:
+                self.fail('source changed by fold(linked=False, counts_method=%s)' % cmname, pl)
+            dist['option_cases'] += 1
+            ctx.count(('ucm', cmname, str(oa), nb, method), True)
 
     def stale_check(self, spec, nb, method, order_seed):
         """A result handed out earlier must keep its value whatever is folded from the same source afterwards, and every
@@ -239,15 +341,25 @@ class Runner(object):
         if oa['kind'] != 'KBit':
             later += [('fold(%d, %d, counts_method=%s)' % (nb, method, n), n, (lambda src, f=f: src.fold(nb, method, counts_method=f)))
                       for n, (_, f) in CM.items()]
+        # rejected calls in between: they must raise what they raise on a fresh source and leave every earlier result alone
+        bits0 = oa['bits']
+        for b2, m2 in ((bits0 * 2, method), (3 if bits0 % 3 else 5, method), (nb, 2), (0, 0), (-nb, method)):
+            later.append(('fold(%d, %d) [rejected]' % (b2, m2), None, (lambda src, b2=b2, m2=m2: src.fold(b2, m2))))
         random.Random(order_seed).shuffle(later)
         later.append(('fold(%d, %d) [again, last]' % (nb, method), 'sum', lambda src: src.fold(nb, method)))   # a cache hit after all the others
         writer = 'sum'              # reducer of the call that last wrote the cached object's counts
         history = ['fold(%d, %d)' % (nb, method)]
         for what, reducer, act in later:
+            trace0 = (dict(a.folded_fingerprint), fmap_obs(a.get_folding_index_map()))
             got = attempt(lambda: obs(act(a)))
             want = attempt(lambda: obs(act(build(spec))))       # history independence: same call on a fresh copy of the source
             history.append(what)
-            call_ok = got[0] == want[0] and (obs_close(got[1], want[1]) if got[0] == 'ok' else got[1] == want[1])
+            if what.endswith('[rejected]') and got[0] == 'err':
+                trace1 = (dict(a.folded_fingerprint), fmap_obs(a.get_folding_index_map()))
+                if set(trace1[0]) != set(trace0[0]) or any(trace1[0][k] is not v for k, v in trace0[0].items()) or trace1[1] != trace0[1]:
+                    self.fail('a rejected fold changed what the source keeps from earlier folds (cache entries or folding index map)',
+                              {'source': fpgen.obs_json(oa), 'calls_so_far': history[:], 'rejected_call': what, 'replay': rp})
+            call_ok = got[0] == want[0] and (obs_close(got[1], want[1], tol_of(oa)[1]) if got[0] == 'ok' else got[1] == want[1])
             if not call_ok:
                 self.fail('%s on a source that was folded before differs from the same call on a fresh source' % what,
                           {'source': fpgen.obs_json(oa), 'calls_so_far': history[:], 'call': what,
@@ -369,7 +481,65 @@ def part_fingerprint(ctx):
         bad = rng.choice([(bits * 2, 0), (bits + 1, 1), (3, 0), (bits - 1, 0), (5, 1), (bits // 2 + 1, 0), (0, 0), (-2, 0), (-bits, 1),
                           (bits // 2, 2), (bits // 4 or 1, -1), (bits, 3), (bits * 2, 2), (7, 5),
                           (bits // 3, 0), (bits // 3, 1), (bits // 6 or 1, 0), (bits // 12 or 1, 1)])   # divisors with an odd quotient
-        R.fold_case('rej', spec, bad[0], bad[1])
+        R.fold_case('rej', spec, bad[0], bad[1], form=rng.choice(('pos', 'pos', 'kw', 'np64')))
+    # 5. the documented ways of WRITING the call (keywords, defaults of `method` and `bits`, numpy integers as lengths):
+    #    every form must be the same function of (source, length, method) as the positional call the model describes
+    import e3fp.fingerprint.fprint as FP
+    if FP.FOLD_BITS_DEF != FOLD_BITS_DEF:
+        R.fail('the default folded length is %r, the documented default is %d' % (FP.FOLD_BITS_DEF, FOLD_BITS_DEF), {'FOLD_BITS_DEF': FP.FOLD_BITS_DEF})
+    for n in range(ctx.n(90, 900)):
+        form = FORMS[n % len(FORMS)]
+        if form == 'np32':
+            # a numpy int32 length on a fingerprint whose own length does not fit int32 is outside the documented input (`bits : int`):
+            # NumPy 2 refuses `2**32 // np.int32(8)` (OverflowError, method 1 only); lengths below 2^31 only
+            bits = rng.choice([b for b in big if b < 2 ** 31] + [8, 12])
+            nb, method = rng.choice(chains(bits))[0], rng.choice([0, 1])
+        elif form.startswith('default_bits'):
+            bits = rng.choice([1024, 2048, 4096, 2 ** 16, 2 ** 32, 2 ** 32, 3 * 2 ** 10, 5 * 2 ** 20, 512, 16])   # the last two: default length too large -> rejected
+            nb, method = FOLD_BITS_DEF, (0 if form == 'default_bits' else rng.choice([0, 1]))
+        else:
+            bits = rng.choice(big + [8, 12])
+            nb, method = rng.choice(chains(bits))[0], (0 if form == 'default_method' else rng.choice([0, 1]))
+        spec = fpgen.rand_spec(rng, bits=bits)
+        if 'cnt' in spec and rng.random() < 0.5:          # collisions for the chosen target
+            for i in list(spec['cnt'])[:3]:
+                j = (i + nb) % bits
+                spec['cnt'].setdefault(j, spec['cnt'][i])
+        dist['call_form_sources'] = dist.get('call_form_sources', 0) + 1
+        R.fold_case('form', spec, nb, method, form=form)
+        if rng.random() < 0.15:
+            R.fold_case('form-rej', spec, rng.choice([bits * 2, 3 if bits % 3 else 5, 0, -nb]), method if form != 'default_method' else 0,
+                        form=form if not form.startswith('default_bits') else 'kw')
+    # 6. explicit zero and negative values (CountFingerprint/FloatFingerprint accept any number per position; differences of
+    #    fingerprints produce them): sums that cancel to zero, max/min over fibres with mixed signs
+    for n in range(ctx.n(70, 700)):
+        bits = rng.choice([8, 16, 16, 12, 64, 1024, 2 ** 32])
+        kind = rng.choice(['KCount', 'KFloat'])
+        idx = fpgen.rand_indices(rng, bits, 6)
+        ch = chains(bits)
+        nb, mid = rng.choice(ch)
+        method = rng.choice([0, 1])
+        for i in list(idx):                               # partners in the same fibre
+            if rng.random() < 0.7:
+                j = (i + nb * rng.randrange(1, 3)) % bits if method == 0 else (i ^ 1)
+                if 0 <= j < bits:
+                    idx.append(j)
+        idx = sorted(set(idx))
+        if kind == 'KCount':
+            vals = [0, 0, 1, 2, -1, -2, -2, 5, -5, 65535, -65536]
+            cnt = {i: rng.choice(vals) for i in idx}
+        else:
+            vals = [Fraction(0), Fraction(0), Fraction(1, 2), Fraction(-1, 2), Fraction(3), Fraction(-3), Fraction(-7, 4), Fraction(7, 4), Fraction(-250),
+                    Fraction(1, 2 ** 30), Fraction(-3, 2 ** 34), Fraction(10 ** 6 + 1, 2 ** 20)]
+            cnt = {i: rng.choice(vals) for i in idx}
+        spec = {'kind': kind, 'bits': bits, 'level': rng.choice([-1, 2, None]), 'cnt': cnt}
+        dist['zero_or_negative_value_sources'] = dist.get('zero_or_negative_value_sources', 0) + 1
+        R.fold_case('zneg', spec, nb, method)
+        R.two_step(spec, nb, mid, method)
+        if rng.random() < 0.6:
+            R.option_cases('zneg', spec, nb, method)
+        if rng.random() < 0.3:
+            R.stale_check(spec, nb, method, rng.randrange(2 ** 30))
 
     cases, payloads = R.cases, R.payloads
     for k in cases[:2] + cases[len(cases) // 2:len(cases) // 2 + 2] + cases[-2:]:
@@ -386,16 +556,18 @@ def part_fingerprint(ctx):
                             'a fold case is non-trivial when it really folds (target < length) and at least two positions collide; distinct by full input.' % small)
     ctx.assumptions += ['lengths are at most 2^53 (the code tests the ratio in double precision; e3fp lengths are at most 2^32)',
                         'np.unique, % and // on int64 arrays, dict/set operations behave as modelled; exercised by the correspondence only',
-                        'float sums over a fibre are compared with relative tolerance 1e-9 (summation order over a Python set is not modelled)',
+                        'float sums over a fibre are compared exactly whenever every order of summation is exact in double precision (values multiples of 2^-k, magnitudes summing below 2^(53-k): the bulk of the generated values) and with relative tolerance 1e-9 otherwise (summation order over a Python set is not modelled)',
                         'the fold cache is observed through results only: object identity of repeated calls is not part of the model']
     return R.found
 
 
 def replay_fingerprint(ctx, rp):
+    if rp.get('type') not in ('fold', 'two_step', 'options', 'stale'):
+        return False
     R = Runner(ctx)
     spec = fpgen.spec_from_json(rp['spec'])
     if rp['type'] == 'fold':
-        R.fold_case(rp['tag'], spec, rp['nb'], rp['method'])
+        R.fold_case(rp['tag'], spec, rp['nb'], rp['method'], rp.get('form', 'pos'))
     elif rp['type'] == 'two_step':
         R.two_step(spec, rp['nb'], rp['mid'], rp['method'])
     elif rp['type'] == 'options':
@@ -411,7 +583,7 @@ def replay_fingerprint(ctx, rp):
 
 PARTS = [part_fingerprint]
 # hook points: parts built by other builders (database fold, fingerprinter route)
-for _name in ('c07_db', 'c07_fprinter'):
+for _name in ('c07_extra', 'c07_db', 'c07_fprinter'):
     if importlib.util.find_spec('props.' + _name) is not None:
         PARTS.append(importlib.import_module('props.' + _name).part)
 
@@ -427,7 +599,7 @@ def run(ctx):
 
 REPLAYERS = [replay_fingerprint]
 # parts built by others may expose `replay_case(ctx, rp) -> handled(bool)` next to `part(ctx)`
-for _name in ('c07_db', 'c07_fprinter'):
+for _name in ('c07_extra', 'c07_db', 'c07_fprinter'):
     if importlib.util.find_spec('props.' + _name) is not None:
         _m = importlib.import_module('props.' + _name)
         if hasattr(_m, 'replay_case'):
@@ -441,6 +613,14 @@ def replay(ctx, path):
     case = d.get('case', {})
     rp = case.get('replay') if isinstance(case, dict) else None
     print('replaying %s: %s' % (path, d.get('what', '')[:200]))
+    if isinstance(case, dict) and ('minimal_history' in case or 'ops' in case):
+        importlib.import_module('props.c07_db').replay_history(ctx, case)
+        return fpgen.finish_replay(ctx, path, 'database history')
+    if isinstance(case, dict) and 'molblock' in case:
+        import m1lib
+        return m1lib.replay_case(ctx, path)
+    if not isinstance(rp, dict):
+        rp = None
     if rp is None:
         ok, res = core.proof_step(ctx)
         if not ok:
